@@ -228,6 +228,12 @@ class Interp:
             return self.instantiate(f, args, kwargs)
         if isinstance(f, Sym):
             raise TypeError("symbolic value is not callable")
+        # calling a callable instance of an interpreted class -> interpret __call__
+        tp = type(f)
+        if not isinstance(f, (types.BuiltinFunctionType, types.FunctionType, types.MethodType)) and self.is_interp_class(tp):
+            c = self._find_dunder(tp, "__call__")
+            if c is not None and self.interpretable(c):
+                return self.call_value(c, (f,) + tuple(args), kwargs)
         # native callable
         fmod = getattr(f, "__module__", None) or getattr(getattr(f, "__func__", None), "__module__", None)
         if fmod is not None and (fmod == "pysym" or fmod.startswith("pysym.")):
@@ -255,13 +261,11 @@ class Interp:
                     return mm(self, args[0], args[1:], kwargs)
             if getattr(f, "_pysym_native", False):
                 return f(*args, **kwargs)
+            if type(f).__name__ in ("method-wrapper", "wrapper_descriptor") or f is object.__new__ or not callable(f):
+                # slot wrappers of object (and non-callables) only look at arity and types: they store the value,
+                # return NotImplemented or raise TypeError without inspecting a symbolic argument
+                return f(*args, **kwargs)
             raise Unmodelled("symbolic argument reaches un-modelled native callable %r" % (getattr(f, "__qualname__", f),))
-        # calling a callable instance of an interpreted class -> interpret __call__
-        tp = type(f)
-        if not isinstance(f, (types.BuiltinFunctionType, types.FunctionType, types.MethodType)) and self.is_interp_class(tp):
-            c = self._find_dunder(tp, "__call__")
-            if c is not None and self.interpretable(c):
-                return self.call_value(c, (f,) + tuple(args), kwargs)
         return f(*args, **kwargs)
 
     def _find_method_model(self, tp, name):
